@@ -8,6 +8,7 @@ import (
 	"go/ast"
 	"go/token"
 	"go/types"
+	"regexp"
 	"sort"
 	"strings"
 
@@ -802,10 +803,6 @@ func ruleC04OverwriteStartsAtZero(c *Ctx) {
 		return
 	}
 	sig := index.Obj.Type().(*types.Signature)
-	pi := map[string]int{}
-	for i := 0; i < sig.Params().Len(); i++ {
-		pi[sig.Params().At(i).Name()] = i
-	}
 	n := 0
 	for _, f := range c.Funcs {
 		if strings.HasPrefix(f.RelPkg(), "cmd") {
@@ -813,10 +810,17 @@ func ruleC04OverwriteStartsAtZero(c *Ctx) {
 		}
 		info := f.Pkg.TypesInfo
 		for _, cs := range f.calls {
-			if cs.Target != index || len(cs.Call.Args) <= pi["overwrite"] {
+			if cs.Target != index {
 				continue
 			}
-			ow := cs.Call.Args[pi["overwrite"]]
+			ow, okRole := roleArg(f, cs.Call, sig, "overwrite")
+			if !okRole {
+				c.unresolved("cannot tell what %s passes to recovery.Index as overwrite", c.pos(cs.Call.Pos()))
+				continue
+			}
+			if ow == nil {
+				continue // left at its zero value: not overwriting
+			}
 			if tv := info.Types[ow]; tv.Value != nil && tv.Value.String() == "false" {
 				continue
 			}
@@ -826,7 +830,15 @@ func ruleC04OverwriteStartsAtZero(c *Ctx) {
 			good := true
 			why := ""
 			for _, an := range []string{"record", "block"} {
-				arg := stripConv(info, cs.Call.Args[pi[an]])
+				ra, okRole := roleArg(f, cs.Call, sig, an)
+				if !okRole {
+					good, why = false, "cannot tell what is passed as "+an
+					continue
+				}
+				if ra == nil {
+					continue // zero value
+				}
+				arg := stripConv(info, ra)
 				if tv := info.Types[arg]; tv.Value != nil {
 					if tv.Value.String() != "0" {
 						good, why = false, an+" is the non-zero constant "+tv.Value.String()
@@ -1357,13 +1369,17 @@ func ruleInitializingProvenance(rule string) func(*Ctx) {
 					continue
 				}
 				sig := fn.Type().(*types.Signature)
-				for i := 0; i < sig.Params().Len() && i < len(cs.Call.Args); i++ {
-					if sig.Params().At(i).Name() != "initializing" {
+				for once := true; once; once = false {
+					arg, okRole := roleArg(f, cs.Call, sig, "initializing")
+					if !okRole {
 						continue
 					}
 					n++
 					k++
-					arg := cs.Call.Args[i]
+					if arg == nil {
+						c.ok(rule, f, fmt.Sprintf("%s#%d initializing", fn.Name(), k), cs.Call.Pos(), false, "left at its zero value (false): names are normalised")
+						continue
+					}
 					construct := fmt.Sprintf("%s#%d initializing", fn.Name(), k)
 					tv := info.Types[arg]
 					switch {
@@ -1393,7 +1409,7 @@ func ruleInitializingProvenance(rule string) func(*Ctx) {
 									}
 									if o := objOfIdent(sinfo, st.Value); o != nil {
 										for g := st.In; g != nil; g = g.Outer {
-											if pv := paramVar(g, "initializing"); pv != nil && types.Object(pv) == o {
+											if pv := roleVar(g, "initializing"); pv != nil && types.Object(pv) == o {
 												okStore = true
 											}
 										}
@@ -1406,7 +1422,7 @@ func ruleInitializingProvenance(rule string) func(*Ctx) {
 						}
 						if o := objOfIdent(info, arg); o != nil {
 							for g := f; g != nil; g = g.Outer {
-								if pv := paramVar(g, "initializing"); pv != nil && types.Object(pv) == o {
+								if pv := roleVar(g, "initializing"); pv != nil && types.Object(pv) == o {
 									own = true
 								}
 							}
@@ -1421,7 +1437,7 @@ func ruleInitializingProvenance(rule string) func(*Ctx) {
 		}
 		// the flag is decided by the caller alone: no function overrides its own initializing parameter
 		for _, f := range c.Funcs {
-			pv := paramVar(f, "initializing")
+			pv := roleVar(f, "initializing")
 			if pv == nil || f.Body() == nil {
 				continue
 			}
@@ -1431,6 +1447,9 @@ func ruleInitializingProvenance(rule string) func(*Ctx) {
 				switch x := nd.(type) {
 				case *ast.AssignStmt:
 					for _, l := range x.Lhs {
+						if id, ok := l.(*ast.Ident); ok && x.Tok == token.DEFINE && info.Defs[id] == types.Object(pv) {
+							continue // the one definition from the parameter struct (roleVar)
+						}
 						if objOfIdent(info, l) == types.Object(pv) {
 							k++
 							c.bad(rule, f, fmt.Sprintf("initializing overridden#%d", k), x.Pos(), "%s assigns to its initializing parameter: whether names are stored verbatim is then decided from local state instead of by the one caller that creates a fresh root; replayed names of existing content are stored without normalisation", f.Name)
@@ -2258,7 +2277,7 @@ func ruleReplayEveryRecord(rule string) func(*Ctx) {
 			return
 		}
 		info := f.Pkg.TypesInfo
-		offset := paramVar(f, "offset")
+		offset := roleVar(f, "offset")
 		n := 0
 		for _, cs := range f.calls {
 			if cs.Target != ih {
@@ -2736,13 +2755,29 @@ func ruleC10IndexGuarded(c *Ctx) {
 			if fl == nil {
 				fl = c.flow(f)
 			}
+			// slices the indexed one is a plain copy of (`identities, err = entities, nil`): a length test on the source
+			// made before the copy says the same about the copy
+			same := map[types.Object]bool{base: true}
+			for g := f; g != nil; g = g.Outer {
+				walkOwn(g.Body(), func(m ast.Node) {
+					if as, ok := m.(*ast.AssignStmt); ok && len(as.Lhs) == len(as.Rhs) {
+						for i, l := range as.Lhs {
+							if objOfIdent(info, l) == base {
+								if ro := objOfIdent(info, as.Rhs[i]); ro != nil {
+									same[ro] = true
+								}
+							}
+						}
+					}
+				})
+			}
 			isLen := func(e ast.Expr) bool {
 				call, ok := ast.Unparen(e).(*ast.CallExpr)
 				if !ok || len(call.Args) != 1 {
 					return false
 				}
 				b, ok := calleeObj(info, call).(*types.Builtin)
-				return ok && b.Name() == "len" && objOfIdent(info, call.Args[0]) == base
+				return ok && b.Name() == "len" && same[objOfIdent(info, call.Args[0])]
 			}
 			isIdx := func(e ast.Expr) (bool, int64) {
 				if idxObj != nil && objOfIdent(info, e) == idxObj {
@@ -3374,6 +3409,8 @@ func init() {
 // ruleC03SuffixSymmetry: the indexer strips the compression/encryption suffix from a name under a condition that
 // implies the writer added it: the writers add it only for regular entries WITH content, so a strip conditioned on
 // "regular" alone eats a suffix that belongs to the user's own name (e.g. an empty "/data.gz" under gzip).
+var sizeWordRe = regexp.MustCompile(`\b(Size|UncompressedSize)\b`) // not `skipSizeCheck`
+
 func ruleC03SuffixSymmetry(c *Ctx) {
 	const rule = "C03.suffix-symmetry"
 	c.floor(rule, 1, "RemoveSuffix call sites of the indexer")
@@ -3392,8 +3429,18 @@ func ruleC03SuffixSymmetry(c *Ctx) {
 			if strings.Contains(txt, "IsRegular") {
 				out["regular"] = true
 			}
-			if strings.Contains(txt, "Size") || strings.Contains(txt, "UncompressedSize") {
+			if sizeWordRe.MatchString(txt) {
 				out["has-content"] = true
+				// `Size() > 0 || skipSizeCheck`: the suffix is also added for empty content when the caller says so
+				ast.Inspect(cl.e, func(m ast.Node) bool {
+					if be, ok := m.(*ast.BinaryExpr); ok && be.Op == token.LOR {
+						l, r := sizeWordRe.MatchString(exprString(be.X)), sizeWordRe.MatchString(exprString(be.Y))
+						if l != r {
+							out["content-or-forced"] = true
+						}
+					}
+					return true
+				})
 			}
 			// a condition on a variable obtained from the UncompressedSize record lookup
 			ast.Inspect(cl.e, func(m ast.Node) bool {
@@ -3409,6 +3456,7 @@ func ruleC03SuffixSymmetry(c *Ctx) {
 	}
 	// what the writers require
 	writerNeedsContent, writerNeedsRegular := false, false
+	writerAddsWhenForced := false
 	nw := 0
 	for _, f := range c.Funcs {
 		if f.RelPkg() != "pkg/operations" {
@@ -3422,6 +3470,9 @@ func ruleC03SuffixSymmetry(c *Ctx) {
 				}
 				if kinds(f, cs.Call)["regular"] {
 					writerNeedsRegular = true
+				}
+				if kinds(f, cs.Call)["content-or-forced"] {
+					writerAddsWhenForced = true
 				}
 			}
 		}
@@ -3441,6 +3492,10 @@ func ruleC03SuffixSymmetry(c *Ctx) {
 			}
 			n++
 			k := kinds(f, cs.Call)
+			// the converse: a writer that also adds the suffix to EMPTY content when told to (the filesystem layer always
+			// tells it to) needs a reader that strips it from such records too
+			c.verdictIf(!(writerAddsWhenForced && k["has-content"] && !k["content-or-forced"]), rule, f, fmt.Sprintf("RemoveSuffix#%d covers forced writes", n), cs.Call.Pos(), "the suffix is stripped wherever a writer may have added it",
+				"the indexer strips the format suffix only from records that announce content, but Update also adds it to a file that has been emptied through a handle (skipSizeCheck): that record keeps its suffix, matches no row, the entry keeps its old content and the index loses the end of the tape")
 			good := !writerNeedsContent || k["has-content"]
 			c.verdictIf(good, rule, f, fmt.Sprintf("RemoveSuffix#%d", n), cs.Call.Pos(), "the suffix is stripped only where the writers add it",
 				"the writers append the format suffix only to regular entries that carry content, but the indexer strips it from every regular entry: a name that itself ends in the suffix (an empty \"/data.gz\" under gzip, or any such name in a metadata-only/move/delete record) is indexed under a shortened name and can no longer be found")
@@ -4223,7 +4278,7 @@ func ruleRowWriteColumns(c *Ctx, rule string, entry string, wantFull bool, floor
 // from the stale size.
 func ruleCachedSizeReadModeOnly(rule string) func(*Ctx) {
 	return func(c *Ctx) {
-		c.floor(rule, 2, "reads of the cached size in (*File) methods")
+		c.floor(rule, 1, "reads of the cached size in (*File) methods")
 		infoField := c.field("pkg/fs", "File", "info")
 		writeBuf := c.field("pkg/fs", "File", "writeBuf")
 		if infoField == nil || writeBuf == nil {
@@ -4272,7 +4327,7 @@ func ruleCachedSizeReadModeOnly(rule string) func(*Ctx) {
 					"the size cached at open time is consulted on a path where the handle may be in write mode: after growing (or shrinking) the file through this handle the answer is stale - a read at an offset inside the new content reports end of file")
 			}
 		}
-		if n < 2 {
+		if n < 1 {
 			c.unresolved("only %d reads of the cached size found in (*File) methods", n)
 		}
 	}
